@@ -61,6 +61,38 @@ def accessors(F, S):
 def cell_type_guard(F, S):
     out = []
     fn = F.fn(M + "::SetCellType", nparams=3)
+    # the range decision is taken on the value that is stored, not on a reinterpreted copy of it
+    from ..rules_narrow import r_narrow
+    o_, _ = r_narrow(F, S, fn, explicit_only=True)
+    out += [o for o in o_ if "accumulation in" not in o.required]
+    en = F.enums.get("OP2Utility::CellType") or {}
+    # ... in particular not on a signed reinterpretation of the (unsigned) cell type: values with the top bit set would
+    # compare as negative and pass an upper-bound test
+    def signed_casts_of_param(nid):
+        res = []
+        for x in fn.subtree(nid):
+            nx = fn.n(x)
+            if nx["k"] in ("CXXStaticCastExpr", "CStyleCastExpr", "CXXFunctionalCastExpr") and nx.get("is") and nx.get("iw") and fn.kids(x):
+                inner = fn.n(fn.strip(fn.kids(x)[0]))
+                if fn.term(fn.kids(x)[0]) == P(fn, 0) and not en.get("is") and nx["iw"] <= 32:
+                    res.append(x)
+        return res
+    tainted = set()
+    for nd in fn.nodes:
+        if nd["k"] == "DeclStmt":
+            for d in nd.get("decls", []):
+                if "init" in d and signed_casts_of_param(d["init"]) and fn.term(d["init"]) == P(fn, 0):
+                    tainted.add(d["d"])
+    guards = [nd for nd in fn.nodes if nd["k"] == "IfStmt" and any(fn.n(x)["k"] == "CXXThrowExpr" for x in fn.subtree(nd["then"]))]
+    for gnd in guards:
+        hit = bool(signed_casts_of_param(gnd["cond"])) or any(fn.n(x)["k"] == "DeclRefExpr" and fn.n(x).get("d") in tainted for x in fn.subtree(gnd["cond"]))
+        inst = M + "::SetCellType#guard-on-own-value"
+        req = "the range refusal compares the cell type itself (unsigned), not a signed reinterpretation of it"
+        if hit:
+            out.append(bad("R-NARROW", inst, fn.loc(gnd["cond"]), fn.qn, req,
+                           "the guard `%s` is evaluated on static_cast<int>(cellType): values with the top bit set are negative there and are accepted" % fmt_term(fn.term(gnd["cond"]))))
+        else:
+            out.append(ok("R-NARROW", inst, fn.loc(gnd["cond"]), fn.qn, req, fmt_term(fn.term(gnd["cond"])), nontrivial=False))
     out += r_atomic(F, S, fn)
     en = F.enums.get("OP2Utility::CellType")
     if en is None:
